@@ -47,9 +47,51 @@ def asWOp (j : Json) : Except String WOp := do
   | "addVars" => return .addVars (← jList asRatPair j "bounds")
   | "queueFix" => return .queueFix (← jNat j "idx") (← jRat j "v")
   | "queueLb" => return .queueLb (← jNat j "idx") (← jRat j "v")
-  | "setObjective" => return .setObjective (← jList asNatRat j "terms")
+  | "setObjective" =>
+    -- optional "const" (the expression's constant term; absent/null = no constant term) and "sense"
+    let const ← match j.getObjVal? "const" with
+      | .ok .null => pure none
+      | .ok v => (asRat v).map some
+      | .error _ => pure none
+    let mx ← match j.getObjVal? "sense" with
+      | .ok (.str "maximize") | .ok (.str "max") => pure true
+      | .ok (.str "minimize") | .ok (.str "min") | .ok .null | .error _ => pure false
+      | .ok v => .error s!"objective sense {v} is not supported"
+    return .setObjective (← jList asNatRat j "terms") const mx
   | "optimize" => return .optimize
   | _ => .error s!"unknown wrapper op {op}"
+
+def optRatJson : Option Rat → Json
+  | some q => Json.str (ratStr q)
+  | none => Json.null
+
+/-- handles returned by every `addVars` of a history -/
+def wrapperHandles (f : GetColsField) : WState → List WOp → List (List Nat)
+  | _, [] => []
+  | s, o :: rest =>
+    match o with
+    | .addVars bs => addVarsHandles s bs :: wrapperHandles f (wstep f s o) rest
+    | _ => wrapperHandles f (wstep f s o) rest
+
+/-- what is read back in the state right after an `optimize`; `ask` = column indices handed to `get_values`
+(keys = positions in the list; absent = all columns) -/
+def readJson (sn : WState) (ask : Option (List Nat)) : Json :=
+  let asked : List (Nat × Nat) := match ask with
+    | some l => (List.range l.length).zip l
+    | none => (List.range sn.cols.length).zip (List.range sn.cols.length)
+  let det : Nat → Bool := fun i => match sn.cols[i]? with
+    | some c => colDetermined c
+    | none => false
+  let got : Json := match getValues sn asked with
+    | some r => Json.arr ((asked.zip r).map (fun (a, kr) =>
+        Json.arr #[Json.num kr.1, if det a.2 then Json.str (ratStr kr.2) else Json.null])).toArray
+    | none => Json.null
+  let feasible := boxFeasible sn.cols
+  Json.mkObj [("feasible", Json.bool feasible),
+    ("values", if feasible then Json.arr ((expectedValues sn.maximize sn.cols).map optRatJson).toArray else Json.null),
+    ("obj", optRatJson (getObjectiveValue sn)),
+    ("got", got),
+    ("nSolves", Json.num sn.nSolves)]
 
 /-- handlers of the encoder modules (`FP/Model/Enc/*.lean`), tried in order for ops not handled below -/
 def encHandlers : List (String → Json → Option (Except String Json)) := encHandlersAll
@@ -119,7 +161,17 @@ def handle (j : Json) : Except String Json := do
     let f ← jStr j "field"
     let fld := if f = "lower" then GetColsField.lower else if f = "cost" then .cost else .upper
     let s := wrun fld ops
-    return Json.arr (s.cols.map (fun c => strArr [ratStr c.lb, ratStr c.ub, ratStr c.cost])).toArray
+    let cols := Json.arr (s.cols.map (fun c => strArr [ratStr c.lb, ratStr c.ub, ratStr c.cost])).toArray
+    -- without "full": the column triples only (the original answer format)
+    if (jBool j "full").toOption != some true then return cols
+    let opsJ ← jArr j "ops"
+    let asks : List (Option (List Nat)) := (opsJ.toList.zip ops).filterMap fun (oj, o) =>
+      if o.isOptimize then some ((jList (·.getNat?) oj "ask").toOption) else none
+    return Json.mkObj [("cols", cols), ("offset", Json.str (ratStr s.offset)),
+      ("maximize", Json.bool s.maximize), ("nSolves", Json.num s.nSolves),
+      ("handles", Json.arr ((wrapperHandles fld {} ops).map
+          (fun h => Json.arr (h.map (fun (n : Nat) => Json.num n)).toArray)).toArray),
+      ("reads", Json.arr (((wsnaps fld ops).zip asks).map (fun (sn, a) => readJson sn a)).toArray)]
   | "augment" =>
     let g ← parseGraph j
     let starts := (jList (·.getStr?) j "starts").toOption.getD []
